@@ -118,6 +118,11 @@ func constTableOf(p *Prog, g *ssa.Global) []Val {
 			rec := map[string]Val{}
 			for fname, fl := range el.Fields {
 				if fl.Const == nil {
+					// a slice / array valued field (the class probabilities of a regime): only its length is kept
+					if fl.Elems != nil && fl.Fields == nil {
+						rec["."+fname+"#len"] = Val{K: TInt, I: int64(len(fl.Elems)), F: float64(len(fl.Elems))}
+						continue
+					}
 					return nil
 				}
 				switch fl.Const.Kind() {
